@@ -757,7 +757,10 @@ func (path *Path) PrependAsn(asn uint32, repeat uint8, confed bool) {
 			if int(repeat)+len(asList) > 255 {
 				repeat = uint8(255 - len(asList))
 			}
-			newAsList := append(asns[:int(repeat)], asList...)
+			// Concat rather than append: when repeat was capped above,
+			// asns[:repeat] has spare capacity and appending in place would
+			// overwrite the ASNs kept for the new segment below.
+			newAsList := slices.Concat(asns[:int(repeat)], asList)
 			asPath.Value[0] = bgp.NewAs4PathParam(segType, newAsList)
 			asns = asns[int(repeat):]
 		}
